@@ -19,6 +19,7 @@ class IBM:
         self.timer = modules["time"]
         self.kill = _sched(kwargs.get("kill"))
         self.kill_tag = _sched(kwargs.get("kill_tag"))  # by release-row tag `rid`
+        self.kill_time = dict(kwargs.get("kill_time") or {})  # keys = model time (ISO string): independent of where a (warm-started) run begins to count steps
         self.deactivate = _sched(kwargs.get("deactivate"))
         self.deactivate_tag = _sched(kwargs.get("deactivate_tag"))
         self.activate = _sched(kwargs.get("activate"))
@@ -60,6 +61,8 @@ class IBM:
             st["alive"] = st["alive"] & (st["age"] < self.lifetime - 0.5)
         if step in self.kill:
             st["alive"] = st["alive"] & ~self._sel(self.kill[step])
+        if str(self.timer.time) in self.kill_time:
+            st["alive"] = st["alive"] & ~self._sel(self.kill_time[str(self.timer.time)])
         if step in self.kill_tag:
             st["alive"] = st["alive"] & ~np.isin(st["rid"], np.asarray(self.kill_tag[step], dtype=int))
         if step in self.deactivate:
